@@ -165,10 +165,31 @@ def _acc_job(args):
         return {"infra": repr(e)}
 
 
-def expiry_case(maxinc=3, timeout_ms=700):
-    """incomplete connections that stay silent are expired by auth_timeout, after which waiting clients are served"""
+def expiry_case(maxinc=3, timeout_ms=700, flood=False):
+    """incomplete connections that stay silent are expired by auth_timeout, after which waiting clients are served - also while
+    other clients keep the bus busy without a pause (`flood`: two authenticated clients stream broadcast signals nobody listens
+    to, so that every poll() of the main loop returns with something to read)"""
+    import threading
     d = bus.Daemon(limits={"max_incomplete_connections": maxinc, "auth_timeout": timeout_ms})
+    stop = threading.Event()
+    threads, flooders, sent = [], [], [0]
     try:
+        if flood:
+            def pour(cl):
+                blob = b"".join(bus.signal_msg(100 + k, "/flood", "verif.f", "Tick", "s", [b"x" * 200]).marshal() for k in range(40))
+                cl.sock.setblocking(True)
+                while not stop.is_set():
+                    try:
+                        cl.sock.sendall(blob); sent[0] += 40
+                    except OSError:
+                        return
+            for _ in range(2):
+                cl = bus.Client(d)
+                cl.send(bus.method_call(1, bus.BUS, bus.BUS_PATH, bus.BUS, "Hello"))
+                cl.recv_until(lambda m: m.mtype in (2, 3) and m.get(5) == 1, 5.0)
+                flooders.append(cl)
+                th = threading.Thread(target=pour, args=(cl,), daemon=True); th.start(); threads.append(th)
+            time.sleep(0.1)
         first = [Pre(d.path) for _ in range(maxinc)]
         for c in first: c.poll(0.1)
         late = Pre(d.path); late.poll(0.15)
@@ -176,12 +197,22 @@ def expiry_case(maxinc=3, timeout_ms=700):
         time.sleep(timeout_ms / 1000.0 * 1.6)
         for c in first: c.poll(0.05)
         late.poll(0.3)
+        if flood and not late.accepted():
+            late.poll(1.5)          # (a busy bus may take a little longer; it must not take for ever)
+            for c in first: c.poll(0.05)
         res = {"first_accepted": [c.accepted() for c in first], "late_accepted_while_full": before,
                "first_closed_after_timeout": [c.eof for c in first], "late_accepted_after_timeout": late.accepted(), "alive": d.alive()}
+        if flood:
+            res["flood_signals_sent"] = sent[0]
         for c in first + [late]:
             c.s.close()
         return res
     finally:
+        stop.set()
+        for cl in flooders:
+            cl.close()
+        for th in threads:
+            th.join(2)
         d.stop()
 
 
@@ -226,6 +257,14 @@ def run_acceptor(ctx):
         ctx.violate("silent unauthenticated connections were not expired by auth_timeout, or a waiting client was not served afterwards: %s" % ex,
                     {"kind": "expiry", "observed": ex}, True)
     ctx.oblige("scenario: auth_timeout expires silent incomplete connections and the waiting client is then served", "correspondence", eok)
+    fx = expiry_case(flood=True)
+    fok = all(fx["first_accepted"]) and not fx["late_accepted_while_full"] and all(fx["first_closed_after_timeout"]) and fx["late_accepted_after_timeout"] and fx["alive"]
+    if not fok:
+        ctx.violate("while two clients flooded the bus with signals, silent unauthenticated connections were not expired by auth_timeout, or a waiting "
+                    "client was not served afterwards (the bus's timers must run however busy its sockets are): %s" % fx, {"kind": "expiry-under-flood", "observed": fx}, True)
+    ctx.oblige("scenario: the same while two clients flood the bus (%d signals during the scenario): timers still fire" % fx.get("flood_signals_sent", 0),
+               "correspondence", fok)
+    ctx.coverage.setdefault("distribution", {})["expiry_under_flood"] = fx
     ctx.coverage.setdefault("distribution", {})["acceptor"] = {"histories": len(good), "steps_with_clients_waiting": full_seen, "expiry": ex}
 
 
@@ -253,6 +292,10 @@ def replay(path):
     rp = data["replay"]
     if rp.get("kind") == "bus-history":
         rc = buscheck.replay_history(path, oracle, "C10")
+    elif rp.get("kind") in ("expiry", "expiry-under-flood"):
+        fx = expiry_case(flood=rp["kind"] == "expiry-under-flood")
+        ok = all(fx["first_accepted"]) and not fx["late_accepted_while_full"] and all(fx["first_closed_after_timeout"]) and fx["late_accepted_after_timeout"] and fx["alive"]
+        print("replay C10 (%s): %s" % (rp["kind"], fx)); rc = 0 if ok else 1
     elif rp.get("kind") == "acceptor":
         print("replay: acceptor history %s (re-run: bin/check C10)" % rp["ops"]); rc = 1
     else:
